@@ -504,6 +504,8 @@ def run(ctx, oracle_only=False, scale=1):
             if not bad:
                 pairs.append((inp, case, res))
         tie(ctx, pairs)
+        # the rotation construction itself (Model/QuatHelpers.lean at Float) against helpers.py / the candidate loop
+        from .. import ext_quat; ext_quat.run_stream(ctx)
 
 
 def search(ctx):
